@@ -108,6 +108,15 @@ fn observer(e: &LockEvent) {
             if e.kind == LockKind::Write {
                 WRITERS_WAITING.fetch_add(1, Ordering::SeqCst);
             }
+            // a request that is certain to block forever (holding the write guard, or asking
+            // for the write guard while holding a read guard) is reported by unwinding out of
+            // the lock call instead of blocking in it
+            if held.iter().any(|h| h.kind == LockKind::Write || e.kind == LockKind::Write) && MODE.load(Ordering::Relaxed) == 0 {
+                if let Some(id) = me {
+                    global().waiting.remove(&id);
+                }
+                panic!("re-entrant {:?} at {} while holding {:?} guard from {}: certain self-deadlock", e.kind, site, held[0].kind, held[0].site);
+            }
             match MODE.load(Ordering::Relaxed) {
                 1 => {
                     // forced schedule: a thread about to re-acquire waits until a writer's
@@ -264,6 +273,30 @@ fn run_discipline(ctx: &Ctx, rep: &mut Report) {
                 let _ = s.read_to_end(&mut v);
                 let _ = s.len();
                 rep.count("m1.handle_scripts");
+            }
+        }
+        // the same handle operations on their *error* paths: every underlying call fails
+        for p in streams.iter().take(4) {
+            if let Ok(mut s) = cf.open_stream(p) {
+                _sh.arm(vec![crate::backend::Fault { kinds: crate::backend::K_READ | crate::backend::K_WRITE | crate::backend::K_SEEK | crate::backend::K_FLUSH, k: 0, err: std::io::ErrorKind::Other, sticky: true, partial: false }]);
+                let r = crate::guard::catch(|| {
+                    let mut buf = [0u8; 100];
+                    let _ = s.read(&mut buf);
+                    let _ = s.write(&[1, 2, 3]);
+                    let _ = s.flush();
+                    let _ = s.set_len(5000);
+                    let _ = s.set_len(10);
+                    let _ = s.seek(SeekFrom::Start(0));
+                    let _ = s.write(&[7u8; 2000]);
+                    let _ = s.seek(SeekFrom::End(0));
+                    let _ = s.flush();
+                });
+                _sh.disarm();
+                if let Err(pinfo) = r {
+                    rep.finding(format!("lock discipline | {}", crate::guard::strip_numbers(&pinfo.message)), format!("on an error path (every underlying call failing): {}", pinfo.message), ctx.witness(0, vec![("monitor", J::s("M1 lock-discipline, error paths"))]));
+                }
+                std::mem::forget(s); // its Drop would write back into the failing store
+                rep.count("m1.error_path_scripts");
             }
         }
         // iterators interleaved: two live iterators, partially consumed
